@@ -217,6 +217,162 @@ func reflectForward(mod, pkg, fn, nameSends, nameAssert, sel string) []Site {
 	}
 }
 
+// ---- origin and uses of a context created inside a function (stream.Merge: `ctx, cancel := …`) ----
+//
+// ctxOriginSites emits, for the statement `<ctxName>, <cancelName> := <rhs>` at the top level of `fn`:
+//   <prefix>Rhs    : String       text of <rhs>                       ("context.WithCancel(context.Background())")
+//   <prefix>Ctor   : String       callee of <rhs> if it is a call     ("context.WithCancel"), else ""
+//   <prefix>Parent : String       first argument of that call         ("context.Background()"), else ""
+//   <prefix>CancelUses : List String   every other occurrence of the identifier <cancelName> in `fn`
+//   <prefix>CtxUses    : List String   every other occurrence of the identifier <ctxName> in `fn`
+// An occurrence is rendered as the innermost call it is the callee or a direct argument of (prefixed by
+// `defer ` / `go ` when that call is deferred / spawned), otherwise as the innermost enclosing simple
+// statement; function literals nested in `fn` are searched too (closures capture the variable). Field
+// names (`x.cancel`, `T{cancel: …}`) are not occurrences of the variable. A second statement defining or
+// assigning the name is an occurrence (its whole text), so a re-binding shows up in the list.
+func ctxOriginFind(c *Ctx, s *Site, ctxName, cancelName string) (*ast.FuncDecl, *ast.AssignStmt, error) {
+	fd, err := c.FindFunc(s.Pkg, s.Func)
+	if err != nil {
+		return nil, nil, err
+	}
+	var def *ast.AssignStmt
+	for _, st := range fd.Body.List {
+		a, ok := st.(*ast.AssignStmt)
+		if !ok || a.Tok != token.DEFINE || len(a.Lhs) != 2 || len(a.Rhs) != 1 {
+			continue
+		}
+		if c.Text(a.Lhs[0]) == ctxName && c.Text(a.Lhs[1]) == cancelName {
+			if def != nil {
+				return nil, nil, fmt.Errorf("%s: `%s, %s :=` occurs twice", s.Func, ctxName, cancelName)
+			}
+			def = a
+		}
+	}
+	if def == nil {
+		return nil, nil, fmt.Errorf("%s: no top-level statement `%s, %s := …`", s.Func, ctxName, cancelName)
+	}
+	return fd, def, nil
+}
+
+// identUses lists the occurrences of the variable `name` in fd other than the left-hand side of `def`.
+func identUses(c *Ctx, fd *ast.FuncDecl, def *ast.AssignStmt, name string) []string {
+	var uses []string
+	var stack []ast.Node
+	ast.Inspect(fd.Body, func(n ast.Node) bool {
+		if n == nil {
+			stack = stack[:len(stack)-1]
+			return true
+		}
+		stack = append(stack, n)
+		id, ok := n.(*ast.Ident)
+		if !ok || id.Name != name {
+			return true
+		}
+		parent := stack[len(stack)-2]
+		switch p := parent.(type) {
+		case *ast.SelectorExpr:
+			if p.Sel == id {
+				return true // field or method name
+			}
+		case *ast.KeyValueExpr:
+			if p.Key == id && len(stack) >= 3 {
+				if cl, ok := stack[len(stack)-3].(*ast.CompositeLit); ok {
+					if _, isMap := cl.Type.(*ast.MapType); !isMap {
+						return true // struct field key
+					}
+				}
+			}
+		case *ast.AssignStmt:
+			if p == def {
+				for _, l := range p.Lhs {
+					if l == id {
+						return true // the definition itself
+					}
+				}
+			}
+		case *ast.Field:
+			// a parameter or result of a nested function literal that shadows the name: report it
+		}
+		// innermost call of which the identifier is the callee or a direct argument
+		if call, ok := parent.(*ast.CallExpr); ok {
+			pre := ""
+			if len(stack) >= 3 {
+				switch gp := stack[len(stack)-3].(type) {
+				case *ast.DeferStmt:
+					if gp.Call == call {
+						pre = "defer "
+					}
+				case *ast.GoStmt:
+					if gp.Call == call {
+						pre = "go "
+					}
+				}
+			}
+			uses = append(uses, pre+c.Text(call))
+			return true
+		}
+		// otherwise the innermost enclosing simple statement
+		for i := len(stack) - 2; i >= 0; i-- {
+			if st, ok := stack[i].(ast.Stmt); ok {
+				if _, isBlock := st.(*ast.BlockStmt); isBlock {
+					continue
+				}
+				uses = append(uses, c.Pretty(st))
+				return true
+			}
+		}
+		uses = append(uses, c.Text(parent))
+		return true
+	})
+	return uses
+}
+
+func ctxOriginSites(mod, pkg, fn, prefix, ctxName, cancelName string) []Site {
+	str := func(name, doc string, f func(c *Ctx, def *ast.AssignStmt) string) Site {
+		return Site{Module: mod, Pkg: pkg, Func: fn, Name: prefix + name, Kind: Custom,
+			Custom: func(c *Ctx, s *Site) (string, error) {
+				_, def, err := ctxOriginFind(c, s, ctxName, cancelName)
+				if err != nil {
+					return "", err
+				}
+				return fmt.Sprintf("/-- `%s, %s := <rhs>` in `%s`: %s -/\ndef %s : String := %s\n",
+					ctxName, cancelName, s.Func, doc, s.Name, leanString(f(c, def))), nil
+			}}
+	}
+	uses := func(name, ident string) Site {
+		return Site{Module: mod, Pkg: pkg, Func: fn, Name: prefix + name, Kind: Custom,
+			Custom: func(c *Ctx, s *Site) (string, error) {
+				fd, def, err := ctxOriginFind(c, s, ctxName, cancelName)
+				if err != nil {
+					return "", err
+				}
+				var us []string
+				for _, u := range identUses(c, fd, def, ident) {
+					us = append(us, leanString(u))
+				}
+				return fmt.Sprintf("/-- every occurrence of the variable `%s` in `%s` (closures included) other than its definition `%s, %s := …`, each as the innermost call it is callee / argument of, or its enclosing statement -/\ndef %s : List String := [%s]\n",
+					ident, s.Func, ctxName, cancelName, s.Name, strings.Join(us, ", ")), nil
+			}}
+	}
+	return []Site{
+		str("Rhs", "text of <rhs>", func(c *Ctx, def *ast.AssignStmt) string { return c.Text(def.Rhs[0]) }),
+		str("Ctor", "callee of <rhs> (\"\" if <rhs> is not a call)", func(c *Ctx, def *ast.AssignStmt) string {
+			if call, ok := def.Rhs[0].(*ast.CallExpr); ok {
+				return c.Text(call.Fun)
+			}
+			return ""
+		}),
+		str("Parent", "first argument of <rhs> (\"\" if none)", func(c *Ctx, def *ast.AssignStmt) string {
+			if call, ok := def.Rhs[0].(*ast.CallExpr); ok && len(call.Args) > 0 {
+				return c.Text(call.Args[0])
+			}
+			return ""
+		}),
+		uses("CancelUses", cancelName),
+		uses("CtxUses", ctxName),
+	}
+}
+
 func init() {
 	const mod = "Merge"
 	const ch = "chans"
@@ -293,4 +449,6 @@ func init() {
 		Site{Module: mod, Pkg: st, Func: "PipeSender.Close", Name: "pipeSenderCloseStmts", Kind: StmtList},
 		Site{Module: mod, Pkg: st, Func: "pipeStream.Close", Name: "pipeStreamCloseStmts", Kind: StmtList},
 	)
+	// where the context handed to the inputs and to Send comes from, and who can end it
+	register(ctxOriginSites(mod, st, "Merge", "smCtx", "ctx", "cancel")...)
 }
